@@ -17,7 +17,7 @@ func init() { register(c16{}) }
 func (c16) ID() string            { return "C16" }
 func (c16) EvidenceLevel() string { return "exploration" }
 func (c16) Rule() string {
-	return "case = (writer kind and level, a sequence over {Write(empty), Write(small), Write(2W+258+1 bytes), Flush, Close, Reset}) executed in lock step on fastgo's Writer and on the standard library's Writer of the same kind and level. Enumerated exhaustively up to length 4 (quick) / 5, and 6 for accelerated flate settings (thorough), plus seeded sequences of length 5..20. Per call: no panic, error-ness equal to the twin's; after the first nil Close of a stream no call emits more than the twin emits in that call; the bytes up to that Close are a complete valid stream of the data written (C01 oracle). Case 0 compares constructor acceptance of levels -5..12. Non-trivial: the sequence contains a call after a Close, or a Reset after data; distinct by (setting, sequence)."
+	return "case = (writer kind and level, a sequence over {Write(empty), Write(small), Write(2W+258+1 bytes), Flush, Close, Reset}) executed in lock step on fastgo's Writer and on the standard library's Writer of the same kind and level. Enumerated exhaustively up to length 4 (quick) / 5, and 6 for accelerated flate settings (thorough), plus seeded sequences of length 5..20. Per call: no panic, error-ness equal to the twin's; after the first nil Close of a stream no call emits more than the twin emits in that call; the bytes up to that Close are a complete valid stream of the data written (C01 oracle). Every fifth gzip/zlib case uses rarely used constructor inputs on both sides (empty non-nil Extra, 65535-byte Extra, over-long Extra of 65536 and 70000 bytes; an empty non-nil zlib dictionary). Case 0 compares constructor acceptance of levels -5..12. Non-trivial: the sequence contains a call after a Close, or a Reset after data; distinct by (setting, sequence)."
 }
 
 var c16Settings = []Setting{
@@ -148,6 +148,28 @@ func (p c16) Run(c *mon.Ctx, i int) {
 		}
 		for k := 0; k < n; k++ {
 			seq = append(seq, c16Alphabet[r.Intn(6)])
+		}
+	}
+	// rarely used constructor inputs, mirrored on the twin: gzip header fields
+	// (an empty non-nil Extra, the longest legal Extra, an over-long one that
+	// every call must report) and an empty non-nil zlib dictionary
+	if i%5 == 3 {
+		switch s.Wrapper {
+		case "gzip":
+			switch (i / 5) % 4 {
+			case 0:
+				s.Hdr = &impl.Header{Extra: []byte{}}
+			case 1:
+				s.Hdr = &impl.Header{Extra: make([]byte, 65535), Name: "n"}
+			case 2:
+				s.Hdr = &impl.Header{Extra: make([]byte, 65536)}
+			default:
+				s.Hdr = &impl.Header{Extra: make([]byte, 70000), Name: "name", Comment: "comment"}
+			}
+			c.Count("gzip-header-variants", 1)
+		case "zlib":
+			s.Dict = []byte{}
+			c.Count("zlib-empty-non-nil-dictionary", 1)
 		}
 	}
 	W := 32768
